@@ -10,9 +10,9 @@ git diff -- scikit_tt > $DST/patch.diff
 cp demo_seeded.py $DST/demo_seeded.py
 export OMP_NUM_THREADS=1 OPENBLAS_NUM_THREADS=1
 /venv/bin/python demo_seeded.py > $DST/demo_with.log 2>&1; W=$?
-git stash -q
+git apply -R $DST/patch.diff     # (not git stash: the stash is shared by all worktrees of a repository)
 /venv/bin/python demo_seeded.py > $DST/demo_without.log 2>&1; WO=$?
-git stash pop -q
+git apply $DST/patch.diff
 /venv/bin/python -m pytest -ra -q -p no:cacheprovider --timeout=900 --continue-on-collection-errors > $DST/tests_with.log 2>&1
 TS=$(tail -1 $DST/tests_with.log)
 FAILED=$(grep -E "^(FAILED|ERROR)" $DST/tests_with.log | grep -v -E "ala10_rank_test|ntl9_rank_test|test_tdmd_exact|test_tdmd_standard" | wc -l)
